@@ -7,6 +7,7 @@ import ZarrsModel.Driver.C09
 import ZarrsModel.Driver.C10
 import ZarrsModel.Driver.C11
 import ZarrsModel.Driver.C12
+import ZarrsModel.Driver.C12Deflate
 import ZarrsModel.Driver.C13
 import ZarrsModel.Driver.C14
 import ZarrsModel.Driver.C15
@@ -71,7 +72,9 @@ def dispatch (st : DState) (l : Line) : Option (DState × List String × Option 
     | some "hcfg" => some ({ st with c13 := {} }, ["ok"], none)
     | some "hop" => (DriverC13.handleOp st.c13 { l with verbs := ["c13", "op"] ++ l.verbs.drop 2 }).map (fun (s, a) => ({ st with c13 := s }, a, none))
     | _ => (DriverC01.handle st.c01 l).map (fun (s, a, n) => ({ st with c01 := s }, a, n))
-  | some "c12" => (DriverC12.handle st.c12 l).map (fun (s, a) => ({ st with c12 := s }, a, none))
+  | some "c12" =>
+    if l.verbs[1]? == some "zinflate" then (DriverC12Deflate.handle l).map (fun a => (st, a, none))
+    else (DriverC12.handle st.c12 l).map (fun (s, a) => ({ st with c12 := s }, a, none))
   | some "c13" => (DriverC13.handle st.c13 l).map (fun (s, a, n) => ({ st with c13 := s }, a, n))
   | some "c14" => (DriverC14.handle l).map (fun a => (st, a, none))
   | _ => none
@@ -97,6 +100,7 @@ def main (args : List String) : IO UInt32 := do
     return 0
   if let ["--gen", "c12", tier, seed] := args then
     for l in DriverC12.genCases tier (seed.toNat?.getD 1) do IO.println l
+    for l in DriverC12Deflate.genCases tier (seed.toNat?.getD 1) do IO.println l
     return 0
   let stdin ← IO.getStdin
   let (ok, diff, bad) ← loop stdin {} 1 0 0 0
